@@ -705,7 +705,7 @@ def check_C18(ctx, tier, seed):
         alloc_world(ctx, vd, cfg, bins[cfg], 48 if quick else 512, 1500 if quick else 20000, hard=False)
         alloc_world(ctx, vd, cfg, bins[cfg], 16 if quick else 128, 1500 if quick else 20000, hard=True)
     nostd_builds(ctx, vd, NOSTD_FEATURE_SETS if not quick else NOSTD_FEATURE_SETS[:4])
-    vd.extra["grid"] = "states = (variant, op kind [14], first call of that kind in the run?) -> 5 x 14 x 2 = 140 cells per build; see distinct_states"
+    vd.extra["grid"] = "states = (variant, op kind [14], first call of that kind in the run?) -> 5 x 18 x 2 = 180 cells per build; see distinct_states"
     vd.extra["components_real"] = ["every core operation of fast-tlsh (new/update/finalize/processed_len/clone/from_str_bytes/TryFrom/store_*/compare/max_distance/clear_checksum/accessors/quartile), incl. first (dispatch-initialising) calls in fresh processes and on fresh threads"]
     vd.extra["components_stub"] = ["the global allocator (SimAlloc: counts while armed; returns null while armed in the allocation-failure sub-batches)"]
     vd.extra["builds"] = ALLOC_CONFIGS
